@@ -64,6 +64,9 @@ func Assume(b bool) {
 }
 
 func Assert(id string, b bool) {
+	if pre := os.Getenv("VN_ASSERT_PREFIX"); pre != "" && !strings.HasPrefix(id, pre) {
+		return
+	}
 	if !b {
 		fmt.Fprintf(out, "ASSERT-FAIL %s\n", id)
 		panic(stop{"assertfail", id})
@@ -105,6 +108,12 @@ func Ite(c bool, a, b int) int {
 	return b
 }
 func IteS(c bool, a, b string) string {
+	if c {
+		return a
+	}
+	return b
+}
+func IteAny(c bool, a, b any) any {
 	if c {
 		return a
 	}
